@@ -22,7 +22,7 @@ META = dict(
         "work is counted as Python call/c_call events (sys.setprofile); work inside Cython/C code is invisible to the counter and "
         "only bounded by the 15 s CPU limit",
     ],
-    floors={"nontrivial": (0.3, None), "db": (0.2, None), "class:entity": (0.05, None), "kind:nest": (0.1, None), "kind:mutdoc": (0.04, None), "kind:misnest": (0.04, None)},
+    floors={"nontrivial": (0.3, None), "db": (0.2, None), "class:entity": (0.02, None), "kind:nest": (0.1, None), "kind:mutdoc": (0.04, None), "kind:misnest": (0.04, None)},
     stall_s=180,
 )
 
